@@ -134,5 +134,10 @@ def check(ctx):
     ctx.ob('R4.2-globals', 'py_simulate_model', ok, ctx.loc('simulator', g), 'the compressed stoichiometry is prepared before the deterministic simulation', '')
     # R4.4 shared
     c03.check_derivative(ctx)
+    # rate(x, t): the deterministic closed forms, the binding of their keys / reactant multisets, the type dispatch and the loop that fills
+    # the propensity buffer the derivative reads (C01) - re-emitted here
+    from . import c01
+    c01.reemit(ctx, 'R4.4-rate-laws', 'deterministic', ('compute_propensities',))
+    ctx.floor('R4.4-rate-laws', 40)
     ctx.floor('R4.1-rhs', 1)
     ctx.floor('R4.3-odeint-call', 3)
